@@ -159,7 +159,14 @@ def insn_stmt(draw, nm, branch_targets=(), allow_dot=True):
             return {"k": "insn", "mn": "nop", "ops": []}
         return {"k": "insn", "mn": draw(st.sampled_from(BRANCHES)), "ops": [("tgt", e)]}
     if k == 9:
-        mn = draw(st.sampled_from(["jsr", "xor", "mul", "ash", "sob_back", "emt", "trap", "mark"]))
+        mn = draw(st.sampled_from(["jsr", "xor", "mul", "ash", "sob_back", "emt", "trap", "mark", "fp", "fp"]))
+        if mn == "fp":
+            fop = draw(gen_operand(nm, allow_dot))
+            if fop[0] == "reg":
+                fop = ("ac", draw(st.integers(0, 5)))
+            if draw(st.booleans()):
+                return {"k": "insn", "mn": draw(st.sampled_from(["ldf", "addf", "muld", "cmpf", "divf", "ldcdf"])), "ops": [fop, ("ac", draw(st.integers(0, 3)))]}
+            return {"k": "insn", "mn": draw(st.sampled_from(["stf", "std", "stcfd"])), "ops": [("ac", draw(st.integers(0, 3))), fop]}
         if mn in ("jsr", "xor"):
             return {"k": "insn", "mn": mn, "ops": [("reg", draw(st.integers(0, 7))), draw(gen_operand(nm, allow_dot))]}
         if mn in ("mul", "ash"):
